@@ -945,11 +945,22 @@ impl CommitEnv for LsmCommitEnv {
 		// Write to WAL for durability
 		let enc_bytes = processed_batch.encode()?;
 		let mut wal_guard = self.core.wal.write();
-		wal_guard.append(&enc_bytes)?;
-		if sync {
-			wal_guard.sync()?;
+		let mut logged = wal_guard.append(&enc_bytes).map(|_| ());
+		if logged.is_ok() && sync {
+			logged = wal_guard.sync();
 		}
 		drop(wal_guard);
+
+		if let Err(e) = logged {
+			// The segment may now end in a partial record (a header without its
+			// payload, or bytes that never reached the disk): whatever is appended
+			// behind it is cut off by the next recovery. No further commit may be
+			// acknowledged on this segment -- stop the store. Reopening it truncates
+			// the torn tail.
+			let e = Error::from(e);
+			self.core.error_handler.set_error(e.clone(), BackgroundErrorReason::WalWrite);
+			return Err(e);
+		}
 
 		Ok(processed_batch)
 	}
